@@ -158,9 +158,11 @@ pub(crate) const TYPES: &[&str] = &[
 ];
 
 pub(crate) fn scope_string(r: &mut Rng) -> String {
-    match r.below(12) {
-        0 => String::new(),
-        1 => r.pick(&["a  b", " a", "a ", " ", "  ", "a\tb", "a\u{a0}b", "a\u{2003}b c", "a\nb", "read write", "a\u{3000}b", "a\r\nb c"]).to_string(),
+    match r.below(48) {
+        0..=3 => String::new(),
+        // MANY scopes (a fine-grained resource server lists hundreds): every single one is reported
+        4 => (0..*r.pick(&[129usize, 130, 257, 300, 1025])).map(|i| format!("s{i}")).collect::<Vec<_>>().join(" "),
+        5..=8 => r.pick(&["a  b", " a", "a ", " ", "  ", "a\tb", "a\u{a0}b", "a\u{2003}b c", "a\nb", "read write", "a\u{3000}b", "a\r\nb c"]).to_string(),
         _ => {
             let n = *r.pick(&[1u64, 1, 2, 2, 3, 5, 9]);
             (0..n)
